@@ -189,6 +189,16 @@ theorem ob_cancelFound (st : St) (a : Nat) (w : Watch) (l : List Nat) : ObsEq st
   exact ((((ob_setListOf st _ _).trans (ob_cancelNotify _ a w)).trans (ob_cancelHook _ w.type w.evi)).trans (ob_free _ a)).trans
     (ob_cancelRest _ _)
 
+theorem ob_cancelDetached (st : St) (a : Nat) : ObsEq st (cancelDetached st a) := by
+  unfold cancelDetached
+  exact (ob_cancelNotify st a _).trans (ob_setW _ _ _)
+
+theorem ob_laterPre (st : St) (a : Nat) : ObsEq st (laterPre st a) := by
+  unfold laterPre
+  split
+  · exact (ob_setW _ _ _)
+  · exact ObsEq.refl _
+
 theorem ob_watchCancel (st : St) (a : Nat) : ObsEq st (watchCancel st a) := by
   unfold watchCancel
   split
@@ -200,7 +210,9 @@ theorem ob_watchCancel (st : St) (a : Nat) : ObsEq st (watchCancel st a) := by
       · split
         · exact (ob_fail st _)
         · split
-          · exact ObsEq.refl st
+          · split
+            · exact ob_cancelDetached st a
+            · exact ObsEq.refl st
           · exact ob_cancelFound st a _ _
 
 
@@ -425,10 +437,12 @@ theorem ob_laterLoopT (l : List Nat) : ∀ st : St, ObsEq st (laterLoopT st l).1
     · split
       · exact (ob_fail _ _)
       · split
-        · exact ob_laterCb _ _
+        · exact (ob_free _ a).trans (ih _)
         · split
-          · exact (ob_laterCb _ _).trans (ob_fail _ _)
-          · exact ((ob_laterCb _ _).trans (ob_free _ a)).trans (ih _)
+          · exact ((ob_laterPre st a).trans (ob_laterCb _ a))
+          · split
+            · exact (((ob_laterPre st a).trans (ob_laterCb _ a))).trans (ob_fail _ _)
+            · exact ((((ob_laterPre st a).trans (ob_laterCb _ a))).trans (ob_free _ a)).trans (ih _)
 
 
 theorem ob_laterLoop (l : List Nat) (st : St) : ObsEq st (laterLoop st l) := ob_laterLoopT l st
